@@ -191,7 +191,7 @@ def make_jobs(tier, seed, build):
     nmax = 3 if tier == "quick" else 4
     for gname in GRAMMARS:
         g = CORPUS[gname]
-        for shape in tok.all_shapes_by_words(nmax, g.decl):
+        for shape in tok.all_shapes_by_words(nmax, g.decl, full_upto=3):
             # transposition of blocks k, k+1; it needs at least two words left of `--`
             left = shape.index("dd") if "dd" in shape else len(shape)
             for k in range(0, left - 1):
@@ -234,7 +234,7 @@ def finish(results, jobs, build, out, tier, seed, wall):
         "solver_time_s": st["solver_s"],
         "mir_statements_executed": st["steps"],
         "outcome_classes": fw.merge_counts(results, "classes"),
-        "bounds": {"argv_words": "2..=%d (up to twice as many items)" % nmax, "grammars": GRAMMARS, "transpositions": "every neighbouring pair of occurrence blocks left of `--`"},
+        "bounds": {"largest_size": (tok.REDUCED_NOTE if tier != "quick" else "all forms"), "argv_words": "2..=%d (up to twice as many items)" % nmax, "grammars": GRAMMARS, "transpositions": "every neighbouring pair of occurrence blocks left of `--`"},
         "jobs": len(jobs),
         "functions_encoded": sorted(fw.merge_counts(results, "fn_hits")),
         "models_used": fw.merge_counts(results, "models_used"),
